@@ -138,7 +138,7 @@ func (e *Engine) block(what string, ready func() bool) {
 			e.deadlock()
 		}
 		var next *gor
-		if len(r) == 1 {
+		if len(r) == 1 || !e.schedFull() {
 			next = r[0]
 		} else {
 			c := e.decide(make([]string, len(r)))
@@ -195,6 +195,7 @@ func spawnGoroutine(i *interpreter, pos token.Pos, fn value, args []value) {
 				// a fault in a secondary goroutine ends the path in main
 				if e.fault == nil {
 					e.fault = p
+					e.faultStack = stackStrings()
 				}
 				e.switchTo(e.gors[0])
 				return
